@@ -14,3 +14,23 @@ Record bs_case := { bc_init : N; bc_ops : list bs_op; bc_obs : list (N * bool) }
 Definition bs_judge (c : bs_case) : nat :=
   verdict (obs_eqb (bc_obs c) (spec_run (bc_init c) (bc_ops c)))
           (obs_eqb (bc_obs c) (bs_run (bc_init c) (bc_ops c))).
+
+(* ---- exhaustive (set, flag, flag) triples of the 8-bit type, compared through a checksum ----
+   For a stored value s the harness folds the outcomes of Add(f, g) and Remove(f, g) from
+   state s over all 65536 (f, g) into one number; the same fold over the model and over the
+   spec is computed here.  A differing checksum is localised by the driver with a detailed run. *)
+Local Open Scope N_scope.
+Definition cks (h v : N) : N := (h * 1000003 + v) mod 2147483647.
+Definition b2n (b : bool) : N := if b then 1 else 0.
+Definition triple_val (step : N -> bs_op -> N * bool) (s f g : N) : N :=
+  let a := step s (BAdd [f; g]) in
+  let r := step s (BRemove [f; g]) in
+  fst a + 256 * fst r + 65536 * b2n (snd a) + 131072 * b2n (snd r).
+Definition range256 : list N := map N.of_nat (seq 0 256).
+Definition triple_sum (step : N -> bs_op -> N * bool) (s : N) : N :=
+  fold_left (fun h f => fold_left (fun h g => cks h (triple_val step s f g)) range256 h) range256 0.
+
+Record tri_case := { tc_s : N; tc_sum : N }.
+Definition tri_judge (c : tri_case) : nat :=
+  verdict (N.eqb (tc_sum c) (triple_sum spec_step (tc_s c)))
+          (N.eqb (tc_sum c) (triple_sum bs_step (tc_s c))).
